@@ -11,7 +11,10 @@ import Koreo.HotReload
 namespace Koreo.Driver.C16
 open MiniJson Koreo.HotReload
 
-abbrev S := State Nat
+abbrev S := State Nat (CondSpec Nat)
+
+/-- the preparer the harness installs -/
+abbrev dcl : CondSpec Nat → (Nat → Bool) → List Nat := condDecl
 
 /-- canonical finite rendering of a state over the universe `[0, n)` (internal: includes
     queues, monitor states, prepare times and the clock) -/
@@ -20,7 +23,7 @@ def key (n : Nat) (s : S) : String :=
   let one (r : Nat) : String :=
     let c := match s.cache r with
       | none => "-"
-      | some e => s!"{e.version}:{e.deps}:{e.deps.map e.seen}"
+      | some e => s!"{e.version}:{e.spec.static}:{e.spec.cond}:{e.deps}:{e.deps.map e.seen}"
     let m := match s.mon r with | .none => "n" | .starting => "s" | .waiting => "w"
     s!"[{c}|g{s.gen r}|s{s.subs r}|q{s.queue r}|{m}|p{s.prepT r}]"
   String.join (rs.map one) ++ s!"c{s.clock}"
@@ -50,7 +53,7 @@ def closure (n : Nat) : Nat → List String → List S → List S → List S
     match frontier with
     | [] => acc
     | _ =>
-      let next := frontier.flatMap fun s => (List.range n).map fun r => bg s r
+      let next := frontier.flatMap fun s => (List.range n).map fun r => bg dcl s r
       let (seen', fresh) := next.foldl
         (fun (p : List String × List S) s => insertUniq n p.1 p.2 s) (seen, [])
       closure n fuel seen' (acc ++ fresh) fresh
@@ -92,7 +95,7 @@ def reply (sess : Sess) : J :=
   .obj [("candidates", .num sess.cands.length),
         ("view", match sess.cands with | s :: _ => view sess.n s | [] => .null)]
 
-/-- one request = a whole history: {"n":3,"events":[{"op":"offer","r":1,"v":2,"deps":[0],"obs":…},
+/-- one request = a whole history: {"n":3,"events":[{"op":"offer","r":1,"v":2,"deps":[0],"cond":[[c,d]…],"obs":…},
     {"op":"delete","r":1,"ver":null|2,"obs":…}, {"op":"turn","obs":…}]}; the answer lists the
     number of candidate states left after every event. -/
 def handle (j : J) : Except String J := do
@@ -107,7 +110,14 @@ def handle (j : J) : Except String J := do
       let r := (← ev.getInt "r").toNat
       let v := (← ev.getInt "v").toNat
       let deps ← natList (ev.getD "deps")
-      sess := { sess with cands := dedup n (sess.cands.map fun s => offer s r v deps) }
+      let cond ← match (ev.getD "cond").arr? with
+        | some xs => xs.mapM fun x => do
+            match ← natList x with
+            | [c, d] => pure (c, d)
+            | _ => throw "bad cond pair"
+        | none => pure []
+      let spec : CondSpec Nat := { static := deps, cond := cond }
+      sess := { sess with cands := dedup n (sess.cands.map fun s => offer dcl s r v spec) }
     | "delete" =>
       let r := (← ev.getInt "r").toNat
       let ver := ((ev.getD "ver").int?).map Int.toNat
